@@ -16,6 +16,7 @@ structure CallRec where
   err : String := "nil"
   connId : Option Nat := none    -- the connection that carried the request (none: never written)
   heldOn : Option Nat := none    -- the connection it is waiting on (long calls)
+  handed : Option Nat := none    -- the connection getConn handed out; the call itself has not started (hook)
 deriving Repr
 
 structure Run where
@@ -57,6 +58,30 @@ def doCall (r0 : Run) (k : Nat) (addr : Nat) (form : String) (hold : Bool) : Run
       else
         let s := step s (.stamp id)
         { r with s := s, calls := r.calls ++ [{ k := k, addr := addr, form := form, done := true, connId := carried }] }
+
+/-- getConn only: the caller is held between getConn and the call -/
+def hookGet (r0 : Run) (k : Nat) (addr : Nat) : Run :=
+  let r := syncTick r0
+  let (s, res) := getConn r.s addr r.clock
+  match res with
+  | none => { r with s := s, calls := r.calls ++ [{ k := k, addr := addr, form := "call", done := true, err := "dial" }] }
+  | some id => { r with s := s, calls := r.calls ++ [{ k := k, addr := addr, form := "call", handed := some id }] }
+
+/-- the caller goes on: the call is made on the connection it was handed (a long call) -/
+def hookRel (r0 : Run) (k : Nat) : Run :=
+  let r := syncTick r0
+  match r.calls.find? (fun c => c.k == k && !c.done) with
+  | some c =>
+    match c.handed with
+    | some id =>
+      if isDead r.s id then
+        let s := step (step r.s (.stamp id)) (.fail id)
+        { r with s := s, calls := r.calls.map fun c' => if c'.k == k then { c' with done := true, err := "shutdown", handed := none } else c' }
+      else
+        let s := step r.s (.callBegin id)
+        { r with s := s, calls := r.calls.map fun c' => if c'.k == k then { c' with connId := some id, heldOn := some id, handed := none } else c' }
+    | none => r
+  | none => r
 
 def finishCall (r0 : Run) (k : Nat) : Run :=
   let r := syncTick r0
@@ -120,11 +145,15 @@ def action (r : Run) (toks : List String) : Option Run :=
     match k.toNat? with
     | some k =>
       if form == "long" then some (doCall r k (addrOf a) "call" true)
+      else if form == "hookget" then some (hookGet r k (addrOf a))
       else if form == "callnb" then some (doCall r k (addrOf a) "call" false)
       else if form == "call" || form == "go" || form == "rt" || form == "ping" || form == "stream" then some (doCall r k (addrOf a) form false)
       else none
     | none => none
   | ["finish", k] => k.toNat?.map (finishCall r)
+  | ["hookrel", k] => k.toNat?.map (hookRel r)
+  | ["idle", "almost"] => some (idleFor r 210)
+  | ["idle", "gap"] => some (idleFor r 250)
   | ["kill", a] => some (kill r (addrOf a))
   | ["bounce", a] => some (bounce r (addrOf a))
   | ["revive", a] => some { r with s := step r.s (.setUp (addrOf a) true) }
